@@ -68,7 +68,7 @@ class Check:
                 known_hit.append(o)
             else:
                 unknown.append(o)
-        rdir = os.path.join(VERIF, "evidence", "replay")
+        rdir = os.path.join(VERIF, "evidence", "replay" if not os.environ.get("VERIF_NO_EVIDENCE") else "replay-scratch")
         os.makedirs(rdir, exist_ok=True)
         for o in known_hit:
             print("KNOWN-FINDING: property=%s %s [%s] %s" % (self.pid, o["key"], o["loc"], o["detail"]))
@@ -107,9 +107,10 @@ class Check:
             wall_s=round(time.time() - self.t0, 2),
             violations=len(unknown),
         )
-        os.makedirs(os.path.join(VERIF, "evidence"), exist_ok=True)
-        with open(os.path.join(VERIF, "evidence", self.pid + ".json"), "w") as f:
-            json.dump(ev, f, indent=1)
+        if not os.environ.get("VERIF_NO_EVIDENCE"):
+            os.makedirs(os.path.join(VERIF, "evidence"), exist_ok=True)
+            with open(os.path.join(VERIF, "evidence", self.pid + ".json"), "w") as f:
+                json.dump(ev, f, indent=1)
         print("%s: %d obligations, %d discharged, %d known findings, %d violations (%.1fs)"
               % (self.pid, n, n - len(viol), len(known_hit), len(unknown), time.time() - self.t0))
         return 1 if unknown else 0
